@@ -47,6 +47,8 @@ def _decider(**facts):
       if o in ('is not', 'is') and is_const(b, None) and a.op == 'sym' and a.args[-1] == 'padding_start':
         if 'padding' in facts:
           return facts['padding'] if o == 'is not' else not facts['padding']
+      if o in ('is not', 'is') and is_const(b, None) and a.op in ('sub', 'call', 'bin'):
+        return o == 'is not'
       if o == '==' and is_const(b, 1) and 'shape' in s and 'size1' in facts:
         return facts['size1']
       if o == '>' and a.op == 'sym' and a.args[-1] == 'lobpcg_topk_precondition' and 'lobpcg' in facts:
@@ -84,6 +86,8 @@ def run(ctx):
   ctx.need('C01.R1', n, 12, 'root-routine functions')
 
   newton(ctx)
+  lobpcg_path(ctx)
+  diagnostics(ctx)
   mat_power(ctx)
   power_iter(ctx)
   eigh_routine(ctx)
@@ -524,3 +528,118 @@ def siblings(ctx):
     ctx.ob('C01.R4', fi.short, 'cast-back', ok,
            'result must be cast back to the dtype of the input matrix', ctx.loc(fi),
            sample='asarray(X, matrix.dtype)')
+
+
+# -------------------------------------------------------------------- LOBPCG-deflated path
+def lobpcg_path(ctx):
+  """N5: deflation / re-deflation formulas and, above all, which error figure is reported."""
+  m = ctx.model
+  fi = m.func(MOD, 'matrix_inverse_pth_root')
+  cmpr = Comparer()
+  LOB = m.cls(MOD, 'LOBPCGDiagnostics').fq + '.create'
+  IPR = m.cls(MOD, 'InversePthRootDiagnostics').fq + '.create'
+  for pad in (True, False):
+    for rel in (True, False):
+      ev = evaluator(m, opaque={'mat_power', 'power_iteration', '_pth_root_difference', LOB, IPR},
+                     decide=_decider(padding=pad, size1=False, rel=rel, lobpcg=True, eigh=False))
+      r = ev.run(fi)
+      ctx.evaluations += 1
+      if r.op != 'tuple' or len(r.args) != 2 or rec_fields(r.args[1]) is None:
+        raise AnalysisError('matrix_inverse_pth_root (lobpcg) does not return (matrix, TrainingMetrics)')
+      x = strip_casts(r.args[0])
+      met = rec_fields(r.args[1])
+      err = strip_casts(met['inverse_pth_root_errors'])
+      if pad:
+        sx, se = select_arms(x), select_arms(err)
+        x = strip_casts(sx[3]) if sx else x
+        err = strip_casts(se[3]) if se else err
+      tag = f'[pad={pad},rel={rel}]'
+      lob = [c for c in walk(r) if is_ext_call(c, 'jax.experimental.sparse.linalg.lobpcg_standard')]
+      ctx.need('C01.N5', len(lob), 1, 'lobpcg_standard call')
+      L = lob[0]
+      eigvals, eigvecs = T('sub', L, const(0)), T('sub', L, const(1))
+      # reported error = max(diag, off-diag) error of the diagnostics of the FINAL root against the UNconditioned damped input
+      dcalls = [c for c in ev.calls if c.callee == IPR]
+      ctx.need('C01.N5', len(dcalls), 2, 'InversePthRootDiagnostics.create calls')
+      uncond = [c for c in dcalls if strip_casts(c.args.get('pth_inverse_root', NONE)) is x or c.args.get('pth_inverse_root') is x]
+      okd = len(uncond) == 1
+      ctx.ob('C01.N5', fi.short, f'diagnostics of the returned root {tag}', okd,
+             'exactly one diagnostics record must be computed from the matrix that is returned', ctx.loc(fi),
+             sample='InversePthRootDiagnostics.create(resultant_mat_h, A + ridge I, p)')
+      if okd:
+        U = uncond[0]
+        env = {'d': U.result}
+        exp = spec_term(ev, 'jnp.maximum(d.max_diag_error, d.max_off_diag_error)', env)
+        ctx.ob('C01.N5', fi.short, f'reported error {tag}', cmpr.same(err, exp),
+               f'with LOBPCG the reported error must be max(max_diag_error, max_off_diag_error) of the diagnostics of the RETURNED root '
+               f'against the unconditioned input; got `{cmpr.fmt(err)[:240]}`', ctx.loc(fi),
+               sample='error = max(uncond.max_diag_error, uncond.max_off_diag_error)')
+        mat = U.args.get('matrix', NONE)
+        okm = mat.op == 'bin' and mat.args[0] == '+' and not any(y is L for y in walk(mat.args[1])) and \
+            any(is_ext_call(y, 'jax.numpy.maximum') for y in walk(mat.args[2])) and any(is_ext_call(y, 'jax.numpy.eye') for y in walk(mat.args[2]))
+        ctx.ob('C01.N5', fi.short, f'unconditioned reference matrix {tag}', okm,
+               'the reference for the reported error must be original_matrix + ridge * identity (not the deflated matrix)', ctx.loc(fi),
+               sample='original_matrix + ridge_epsilon * identity')
+        pp = U.args.get('p', NONE)
+        ctx.ob('C01.N5', fi.short, f'diagnostics exponent {tag}', pp.op == 'sym' and pp.args[-1] == 'p',
+               'diagnostics must use the routine\'s exponent p', ctx.loc(fi), sample='p forwarded')
+      # re-deflation
+      pd = [c for c in ev.calls if c.callee.endswith('._pth_root_difference')]
+      ctx.need('C01.N5', len(pd), 1, '_pth_root_difference call')
+      P = pd[0]
+      env = {'eigvals': eigvals, 'eigvecs': eigvecs, 'pth_diff': P.result}
+      okargs = cmpr.same(P.args.get('alpha', NONE), spec_term(ev, 'jnp.min(eigvals)', env)) and P.args.get('beta') is eigvals and \
+          P.args.get('p', NONE).op == 'sym' and any(is_ext_call(y, 'jax.numpy.maximum') for y in walk(P.args.get('w', NONE)))
+      ctx.ob('C01.N5', fi.short, f're-deflation arguments {tag}', okargs,
+             '_pth_root_difference must be called as (ridge_epsilon, min(eigvals), eigvals, p)', ctx.loc(fi),
+             sample='_pth_root_difference(ridge, min(eigvals), eigvals, p)')
+      wl = [y for y in walk(x) if y.op == 'while']
+      outer = [y for y in wl if not any(y is not o and y in set(walk(o)) for o in wl)]
+      if outer:
+        env['cond_root'] = T('sub', outer[0], const(1))
+        exp_x = spec_term(ev, 'cond_root - (eigvecs * jnp.sqrt(pth_diff)).dot((eigvecs * jnp.sqrt(pth_diff)).T)', env)
+        ctx.ob('C01.N5', fi.short, f're-deflated root {tag}', cmpr.same(x, exp_x),
+               f'returned root must be conditioned_root - (V sqrt(pth_diff))(V sqrt(pth_diff))^T; got `{cmpr.fmt(x)[:200]}`', ctx.loc(fi),
+               sample='X = X_cond - (V sqrt(d))(V sqrt(d))^T')
+      # deflation of the input and eigenvalue estimate
+      if rel:
+        mx = [c for c in walk(x) if is_ext_call(c, 'jax.numpy.maximum')]
+        okr = any(cmpr.same(c.args[1][0], spec_term(ev, 'jnp.max(eigvals)', env)) for c in mx if c.args[1])
+        ctx.ob('C01.N5', fi.short, f'ridge scaled by max LOBPCG eigenvalue {tag}', okr and not [c for c in ev.calls if c.callee.endswith('.power_iteration')],
+               'with LOBPCG and relative epsilon the ridge must scale with max(eigvals) (no power iteration)', ctx.loc(fi),
+               sample='max_ev = max(eigvals)')
+
+
+def diagnostics(ctx):
+  """D1: InversePthRootDiagnostics.create measures |X^p A - I| (diag / off-diag); _pth_root_difference."""
+  m = ctx.model
+  fi = m.func(MOD, 'InversePthRootDiagnostics.create')
+  ctx.analysed(fi)
+  ev = evaluator(m, opaque={'mat_power'})
+  r = rec_fields(ev.run(fi))
+  if r is None:
+    raise AnalysisError('InversePthRootDiagnostics.create does not build a record')
+  cmpr = Comparer()
+  P = lambda nm: sym('param', fi.short, nm)
+  env = {'root': P('pth_inverse_root'), 'matrix': P('matrix'), 'p': P('p'), 'mat_power': T('fn', m.func(MOD, 'mat_power').fq)}
+  M = 'jnp.matmul(mat_power(root, p), matrix)'
+  specs = {
+      'max_diag_error': f'jnp.max(jnp.abs(jnp.diag({M}) - 1))',
+      'avg_diag_error': f'jnp.mean(jnp.abs(jnp.diag({M}) - 1))',
+      'max_off_diag_error': f'jnp.max(jnp.abs({M} - jnp.diag(jnp.diag({M}))))',
+  }
+  for k, src in specs.items():
+    ctx.ob('C01.D1', fi.short, k, cmpr.same(r[k], spec_term(ev, src, env)),
+           f'`{k}` must be `{src}`; got `{cmpr.fmt(r[k])[:200]}`', ctx.loc(fi), sample=f'{k} = {src}')
+  fd = m.func(MOD, '_pth_root_difference')
+  ctx.analysed(fd)
+  ev = evaluator(m)
+  r = ev.run(fd)
+  Q = lambda nm: sym('param', fd.short, nm)
+  env = {k: Q(k) for k in ('w', 'alpha', 'beta', 'p')}
+  a, b, amb = '(w + alpha)', '(w + beta)', '(alpha - beta)'
+  stable = lambda bb, d: f'(({bb} ** (-1 / p)) * jnp.expm1((-1 / p) * jnp.log1p({d} / {bb})))'
+  src = f'jnp.where(jnp.abs({amb} / {b}) < jnp.abs({amb} / {a}), -{stable(a, "(-" + amb + ")")}, {stable(b, amb)})'
+  ctx.ob('C01.D1', fd.short, 'stable difference of roots', cmpr.same(r, spec_term(ev, src, env)),
+         f'_pth_root_difference must be (w+alpha)^(-1/p) - (w+beta)^(-1/p) in its two log1p/expm1 forms; got `{cmpr.fmt(r)[:240]}`',
+         ctx.loc(fd), sample='(b^e) expm1(e log1p((a-b)/b)) forms')
